@@ -365,6 +365,7 @@ func (r *registry) acquireAccessToken(ctx context.Context, requiredScope, wantSc
 	}
 	var expires time.Time
 	now := time.Now().UTC()
+	now = verifShift(now)
 	if tok.ExpiresIn == 0 {
 		expires = now.Add(60 * time.Second) // TODO link to where this is mentioned
 	} else {
@@ -497,6 +498,7 @@ func (r *registry) doTokenRequest(req *http.Request) (*wireToken, error) {
 // time.
 // TODO ask the store to remove expired tokens?
 func (r *registry) deleteExpiredTokens(now time.Time) {
+	now = verifShift(now)
 	r.accessTokens = slices.DeleteFunc(r.accessTokens, func(tok *scopedToken) bool {
 		return now.After(tok.expires)
 	})
